@@ -676,6 +676,10 @@ def main(ctx, replay):
                       {"op": "stalebatch", "kind": "ack"}, {"op": "ingress", "route": "pull", "marker": "s2"},
                       {"op": "stalebatch", "kind": "nack"}, {"op": "publish", "items": [{"id": "pub-s-0", "marker": "s3_0"}, {"id": "pub-s-1", "marker": "s3_1"}]},
                       {"op": "ingress", "route": "fan", "marker": "s4"}, {"op": "ack", "ref": [0, 0]}, {"op": "ingress", "route": "pull", "marker": "s5"}])
+    # a fixed workload: Admin publish batches of more than a hundred items (the API takes up to 1000): a 200 promises every item
+    workloads.append([{"op": "publish", "items": [{"id": "pb-a-%d" % j, "marker": "pa_%d" % j} for j in range(130)]},
+                      {"op": "ingress", "route": "pull", "marker": "pb1"}, {"op": "dequeue", "batch": 3},
+                      {"op": "publish", "items": [{"id": "pb-b-%d" % j, "marker": "pbb_%d" % j} for j in range(101)]}, {"op": "ack", "ref": [0, 0]}])
     # a fixed workload: a route behind forward auth with a body_limit far below the bodies it receives, between ordinary traffic
     workloads.append([{"op": "ingress", "route": "fwd", "marker": "f1"}, {"op": "ingress", "route": "pull", "marker": "f2"},
                       {"op": "ingress", "route": "fwd", "marker": "c3"}, {"op": "dequeue", "batch": 1}, {"op": "ingress", "route": "fwd", "marker": "f4"},
